@@ -247,6 +247,9 @@ package adaptation
 
 // The parts of the ledger that a creation-path function does not name stay as they were.
 // (entries of other containers are untouched by the frame: modifies mapkey(r.owners, cid(r)))
+// how a creation-path function may change the ledger's maps: each is the one from before, nil, or allocated by the call
+//@ pure ledgerMapsStep(r *result) = (old(has(r.owners, cid(r))) ==> has(r.owners, cid(r)) && ledger(r) == old(ledger(r)) && (ledger(r).annotations == old(ledger(r).annotations) || ledger(r).annotations == nil || fresh(ledger(r).annotations)) && (ledger(r).mounts == old(ledger(r).mounts) || ledger(r).mounts == nil || fresh(ledger(r).mounts)) && (ledger(r).devices == old(ledger(r).devices) || ledger(r).devices == nil || fresh(ledger(r).devices)) && (ledger(r).cdiDevices == old(ledger(r).cdiDevices) || ledger(r).cdiDevices == nil || fresh(ledger(r).cdiDevices)) && (ledger(r).env == old(ledger(r).env) || ledger(r).env == nil || fresh(ledger(r).env)) && (ledger(r).hugepageLimits == old(ledger(r).hugepageLimits) || ledger(r).hugepageLimits == nil || fresh(ledger(r).hugepageLimits)) && (ledger(r).unified == old(ledger(r).unified) || ledger(r).unified == nil || fresh(ledger(r).unified)) && (ledger(r).rlimits == old(ledger(r).rlimits) || ledger(r).rlimits == nil || fresh(ledger(r).rlimits)))
+//@     && (!old(has(r.owners, cid(r))) && has(r.owners, cid(r)) ==> (ledger(r).annotations == nil || fresh(ledger(r).annotations)) && (ledger(r).mounts == nil || fresh(ledger(r).mounts)) && (ledger(r).devices == nil || fresh(ledger(r).devices)) && (ledger(r).cdiDevices == nil || fresh(ledger(r).cdiDevices)) && (ledger(r).env == nil || fresh(ledger(r).env)) && (ledger(r).hugepageLimits == nil || fresh(ledger(r).hugepageLimits)) && (ledger(r).unified == nil || fresh(ledger(r).unified)) && (ledger(r).rlimits == nil || fresh(ledger(r).rlimits)))
 //@ pure ledgerKept(r *result) = has(r.owners, cid(r)) && allocated(ledger(r)) && (old(has(r.owners, cid(r))) ==> ledger(r) == old(ledger(r)))
 //@ pure ledgerSame(r *result) = has(r.owners, cid(r)) == old(has(r.owners, cid(r))) && ledger(r) == old(ledger(r))
 
@@ -254,6 +257,7 @@ package adaptation
 //@   props C01 C02 C03 C04
 //@   requires wfCreate(r)
 //@   modifies mapkey(r.owners, cid(r)), ledger(r).cgroupsPath, view(r).Linux.CgroupsPath, reply(r).Linux.CgroupsPath
+//@   ensures [wf]       wfCreate(r)
 //@   ensures [noop]     path == "" ==> result == nil && ledger(r).cgroupsPath == old(ledger(r).cgroupsPath)
 //@                      && view(r).Linux.CgroupsPath == old(view(r).Linux.CgroupsPath) && reply(r).Linux.CgroupsPath == old(reply(r).Linux.CgroupsPath)
 //@                      && ledgerSame(r)
@@ -267,6 +271,7 @@ package adaptation
 //@   props C01 C02 C03 C04
 //@   requires wfCreate(r)
 //@   modifies mapkey(r.owners, cid(r)), ledger(r).oomScoreAdj, view(r).Linux.OomScoreAdj, reply(r).Linux.OomScoreAdj
+//@   ensures [wf]       wfCreate(r)
 //@   ensures [noop]     OomScoreAdj == nil ==> result == nil && ledger(r).oomScoreAdj == old(ledger(r).oomScoreAdj)
 //@                      && view(r).Linux.OomScoreAdj == old(view(r).Linux.OomScoreAdj) && reply(r).Linux.OomScoreAdj == old(reply(r).Linux.OomScoreAdj)
 //@                      && ledgerSame(r)
@@ -285,6 +290,8 @@ package adaptation
 //@   props C01 C02 C03 C04
 //@   requires wfCreate(r)
 //@   modifies mapkey(r.owners, cid(r)), ledger(r).args, view(r).Args, reply(r).Args
+//@   ensures [wf]       wfCreate(r)
+//@   ensures [lmaps]    ledgerMapsStep(r)
 //@   ensures [noop]     len(args) == 0 ==> result == nil && ledger(r).args == old(ledger(r).args)
 //@                      && view(r).Args == old(view(r).Args) && reply(r).Args == old(reply(r).Args) && ledgerSame(r)
 //@   ensures [conflict] len(args) > 0 && args[0] != "" && old(ledger(r).args) != "" ==> result != nil && ledger(r).args == old(ledger(r).args)
@@ -312,6 +319,7 @@ package adaptation
 //@   props C01 C02 C03
 //@   requires wfCreate(r) && noNilCDI(devices) && sep(base(devices), base(reply(r).CDIDevices))
 //@   modifies mapkey(r.owners, cid(r)), ledger(r).cdiDevices, map(ledger(r).cdiDevices), reply(r).CDIDevices, elems(reply(r).CDIDevices)
+//@   ensures [wf]       wfCreate(r)
 //@   ensures [noop]    len(devices) == 0 ==> result == nil && reply(r).CDIDevices == old(reply(r).CDIDevices) && ledgerSame(r) && ledger(r).cdiDevices == old(ledger(r).cdiDevices)
 //@   ensures [c01]     forall i int :: 0 <= i && i < len(devices) && old(has(ledger(r).cdiDevices, devices[i].Name)) ==> result != nil
 //@   ensures [c02]     old(cdiDisjoint(r, devices)) ==> result == nil
@@ -341,6 +349,7 @@ package adaptation
 //@   requires wfCreate(r) && noNilRlimits(rlimits)
 //@   requires sep(base(rlimits), base(reply(r).Rlimits)) && sep(base(rlimits), base(view(r).Rlimits)) && sep(base(view(r).Rlimits), base(reply(r).Rlimits))
 //@   modifies mapkey(r.owners, cid(r)), ledger(r).rlimits, map(ledger(r).rlimits), reply(r).Rlimits, elems(reply(r).Rlimits), view(r).Rlimits, elems(view(r).Rlimits)
+//@   ensures [wf]       wfCreate(r)
 //@   ensures [noop]    len(rlimits) == 0 ==> result == nil && reply(r).Rlimits == old(reply(r).Rlimits) && view(r).Rlimits == old(view(r).Rlimits)
 //@                     && ledgerSame(r) && ledger(r).rlimits == old(ledger(r).rlimits)
 //@   ensures [c01]     forall i int :: 0 <= i && i < len(rlimits) && old(has(ledger(r).rlimits, rlimits[i].Type)) ==> result != nil
@@ -389,6 +398,8 @@ package adaptation
 //@   props C01 C02 C03 C04
 //@   requires wfCreate(r) && annV(r) != nil && annR(r) != nil && annV(r) != annR(r) && annotations != annV(r) && annotations != annR(r)
 //@   requires has(r.owners, cid(r)) ==> wfOwners(ledger(r)) && avoids(ledger(r), annotations) && avoids(ledger(r), annV(r)) && avoids(ledger(r), annR(r))
+//@   ensures [wf]       wfCreate(r)
+//@   ensures [lmaps]    ledgerMapsStep(r)
 // no key is marked for removal twice ("--k")
 //@   requires forall k string :: has(annotations, "-" + k) ==> !markedK(k)
 //@   modifies map(annotations), mapkey(r.owners, cid(r)), ledger(r).annotations, map(ledger(r).annotations), map(annV(r)), map(annR(r))
@@ -458,6 +469,8 @@ package adaptation
 //@   requires wfCreate(r) && noNilLD(devices) && noNilLD(devD(r)) && noNilLD(devW(r))
 //@   requires sep(base(devices), base(devD(r))) && sep(base(devices), base(devW(r))) && sep(base(devD(r)), base(devW(r)))
 //@   modifies @writes
+//@   ensures [wf]       wfCreate(r)
+//@   ensures [lmaps]    ledgerMapsStep(r)
 //@   ensures [noop]   len(devices) == 0 ==> result == nil && devD(r) == old(devD(r)) && devW(r) == old(devW(r))
 //@   ensures [owned]    result == nil ==> (forall j int :: 0 <= j && j < len(devices) && !markedK(devices[j].Path) ==> ownedD(r, devices[j].Path) && devL(r)[devices[j].Path] == plugin)
 //@   ensures [released] old(devCons(r)) ==> (forall p string :: rmD(devices, p) && ownedD(r, p) ==> devL(r)[p] == plugin)
@@ -484,6 +497,7 @@ package adaptation
 // loop 2: drop removed devices from the collected list and release their owners
 //@   loop 2 modifies elems(cleared), mapkey(r.owners, cid(r)), map(devL(r))
 //@   loop 2 invariant 0 <= idx + 1 && idx + 1 <= len(devD(r)) && wfCreate(r) && cid(r) == old(cid(r)) && id == cid(r) && create == r.request.create && devD(r) == pre(devD(r)) && devW(r) == pre(devW(r))
+//@   loop 2 invariant ledgerMapsStep(r)
 //@   loop 2 invariant ledgerStep(r) && (pre(has(r.owners, cid(r))) ==> devL(r) == pre(devL(r))) && (!pre(has(r.owners, cid(r))) && has(r.owners, cid(r)) ==> zeroed(ledger(r)))
 //@   loop 2 invariant (base(cleared) == base(entry(cleared)) || prefresh(cleared)) && sep(base(cleared), base(devices)) && sep(base(cleared), base(devD(r))) && sep(base(cleared), base(devW(r))) && sep(base(cleared), base(add))
 //@   loop 2 invariant forall i int :: 0 <= i && i < len(cleared) ==> allocated(cleared[i]) && !has(del, cleared[i].Path)
@@ -502,6 +516,7 @@ package adaptation
 // loop 4: claim and append the sets
 //@   loop 4 modifies mapkey(r.owners, cid(r)), ledger(r).devices, map(devL(r)), reply(r).Linux.Devices, elems(devD(r))
 //@   loop 4 invariant 0 <= idx + 1 && idx + 1 <= len(add) && wfCreate(r) && cid(r) == old(cid(r)) && id == cid(r) && create == r.request.create
+//@   loop 4 invariant ledgerMapsStep(r)
 //@   loop 4 invariant ledgerStep(r) && (pre(has(r.owners, cid(r))) && pre(devL(r)) != nil ==> devL(r) == pre(devL(r)))
 //@   loop 4 invariant has(r.owners, cid(r)) && devL(r) != nil && !(pre(has(r.owners, cid(r))) && pre(devL(r)) == devL(r)) ==> prefresh(devL(r))
 //@   loop 4 invariant (base(devD(r)) == pre(base(devD(r))) || prefresh(devD(r))) && sep(base(devD(r)), base(add)) && sep(base(devD(r)), base(devW(r))) && sep(base(devD(r)), base(devices))
@@ -543,6 +558,8 @@ package adaptation
 //@   requires wfCreate(r) && noNilM(mounts) && noNilM(mntD(r)) && noNilM(mntW(r))
 //@   requires sep(base(mounts), base(mntD(r))) && sep(base(mounts), base(mntW(r))) && sep(base(mntD(r)), base(mntW(r)))
 //@   modifies @writes
+//@   ensures [wf]       wfCreate(r)
+//@   ensures [lmaps]    ledgerMapsStep(r)
 //@   ensures [noop]   len(mounts) == 0 ==> result == nil && mntD(r) == old(mntD(r)) && mntW(r) == old(mntW(r))
 //@   ensures [owned]    result == nil ==> (forall j int :: 0 <= j && j < len(mounts) && !markedK(mounts[j].Destination) ==> ownedM(r, mounts[j].Destination) && mntL(r)[mounts[j].Destination] == plugin)
 //@   ensures [released] old(mntCons(r)) ==> (forall p string :: rmM(mounts, p) && ownedM(r, p) ==> mntL(r)[p] == plugin)
@@ -569,6 +586,7 @@ package adaptation
 // loop 2: drop removed mounts from the collected list and release their owners
 //@   loop 2 modifies elems(cleared), mapkey(r.owners, cid(r)), map(mntL(r))
 //@   loop 2 invariant 0 <= idx + 1 && idx + 1 <= len(mntD(r)) && wfCreate(r) && cid(r) == old(cid(r)) && id == cid(r) && create == r.request.create && mntD(r) == pre(mntD(r)) && mntW(r) == pre(mntW(r))
+//@   loop 2 invariant ledgerMapsStep(r)
 //@   loop 2 invariant ledgerStep(r) && (pre(has(r.owners, cid(r))) ==> mntL(r) == pre(mntL(r))) && (!pre(has(r.owners, cid(r))) && has(r.owners, cid(r)) ==> zeroed(ledger(r)))
 //@   loop 2 invariant (base(cleared) == base(entry(cleared)) || prefresh(cleared)) && sep(base(cleared), base(mounts)) && sep(base(cleared), base(mntD(r))) && sep(base(cleared), base(mntW(r))) && sep(base(cleared), base(add))
 //@   loop 2 invariant forall i int :: 0 <= i && i < len(cleared) ==> allocated(cleared[i]) && !has(del, cleared[i].Destination)
@@ -587,6 +605,7 @@ package adaptation
 // loop 4: claim and append the sets
 //@   loop 4 modifies mapkey(r.owners, cid(r)), ledger(r).mounts, map(mntL(r)), reply(r).Mounts, elems(mntD(r))
 //@   loop 4 invariant 0 <= idx + 1 && idx + 1 <= len(add) && wfCreate(r) && cid(r) == old(cid(r)) && id == cid(r) && create == r.request.create
+//@   loop 4 invariant ledgerMapsStep(r)
 //@   loop 4 invariant ledgerStep(r) && (pre(has(r.owners, cid(r))) && pre(mntL(r)) != nil ==> mntL(r) == pre(mntL(r)))
 //@   loop 4 invariant has(r.owners, cid(r)) && mntL(r) != nil && !(pre(has(r.owners, cid(r))) && pre(mntL(r)) == mntL(r)) ==> prefresh(mntL(r))
 //@   loop 4 invariant (base(mntD(r)) == pre(base(mntD(r))) || prefresh(mntD(r))) && sep(base(mntD(r)), base(add)) && sep(base(mntD(r)), base(mntW(r))) && sep(base(mntD(r)), base(mounts))
@@ -798,6 +817,8 @@ package adaptation
 //@   requires wfCreate(r) && noNilKV(env) && noNilKV(envD(r))
 //@   requires sep(base(env), base(envD(r))) && sep(base(env), base(envW(r))) && sep(base(envD(r)), base(envW(r)))
 //@   modifies @writes
+//@   ensures [wf]       wfCreate(r)
+//@   ensures [lmaps]    ledgerMapsStep(r)
 //@   ensures [noop]   len(env) == 0 ==> result == nil && envD(r) == old(envD(r)) && envW(r) == old(envW(r))
 //@   ensures [owned]    result == nil ==> (forall j int :: 0 <= j && j < len(env) && !markedK(env[j].Key) ==> ownedE(r, env[j].Key) && envL(r)[env[j].Key] == plugin)
 //@   ensures [released] old(envCons(r)) ==> (forall p string :: rmE(env, p) && ownedE(r, p) ==> envL(r)[p] == plugin)
@@ -821,6 +842,7 @@ package adaptation
 // loop 2: drop removed env from the collected list and release their owners
 //@   loop 2 modifies elems(cleared), mapkey(r.owners, cid(r)), map(envL(r))
 //@   loop 2 invariant 0 <= idx + 1 && idx + 1 <= len(envD(r)) && wfCreate(r) && cid(r) == old(cid(r)) && id == cid(r) && create == r.request.create && envD(r) == pre(envD(r)) && envW(r) == pre(envW(r))
+//@   loop 2 invariant ledgerMapsStep(r)
 //@   loop 2 invariant ledgerStep(r) && (pre(has(r.owners, cid(r))) ==> envL(r) == pre(envL(r))) && (!pre(has(r.owners, cid(r))) && has(r.owners, cid(r)) ==> zeroed(ledger(r)))
 //@   loop 2 invariant (base(cleared) == base(entry(cleared)) || prefresh(cleared)) && sep(base(cleared), base(env)) && sep(base(cleared), base(envD(r))) && sep(base(cleared), base(envW(r))) && sep(base(cleared), base(add))
 //@   loop 2 invariant forall i int :: 0 <= i && i < len(cleared) ==> allocated(cleared[i]) && !has(del, cleared[i].Key)
@@ -838,6 +860,7 @@ package adaptation
 // loop 4: claim and append the sets
 //@   loop 4 modifies mapkey(r.owners, cid(r)), ledger(r).env, map(envL(r)), reply(r).Env, elems(envD(r))
 //@   loop 4 invariant 0 <= idx + 1 && idx + 1 <= len(add) && wfCreate(r) && cid(r) == old(cid(r)) && id == cid(r) && create == r.request.create
+//@   loop 4 invariant ledgerMapsStep(r)
 //@   loop 4 invariant ledgerStep(r) && (pre(has(r.owners, cid(r))) && pre(envL(r)) != nil ==> envL(r) == pre(envL(r)))
 //@   loop 4 invariant has(r.owners, cid(r)) && envL(r) != nil && !(pre(has(r.owners, cid(r))) && pre(envL(r)) == envL(r)) ==> prefresh(envL(r))
 //@   loop 4 invariant (base(envD(r)) == pre(base(envD(r))) || prefresh(envD(r))) && sep(base(envD(r)), base(add)) && sep(base(envD(r)), base(envW(r))) && sep(base(envD(r)), base(env))
@@ -861,6 +884,43 @@ package adaptation
 //@   loop 6 modifies view(r).Env, elems(envW(r))
 //@   loop 6 invariant 0 <= idx + 1 && idx + 1 <= len(add) && wfCreate(r) && create == r.request.create
 //@   loop 6 invariant (base(envW(r)) == pre(base(envW(r))) || prefresh(envW(r)))
+
+// ---------------------------------------------------------------------------
+// result.adjust: the composition of the per-family functions.  Its precondition is the
+// conjunction of theirs; every call site must re-establish the callee's precondition from
+// what the earlier callees guarantee, so this is where the per-function contracts are
+// checked against each other.
+// ---------------------------------------------------------------------------
+//@ pure adjPre(r *result, a *ContainerAdjustment) = a.Annotations != annV(r) && a.Annotations != annR(r)
+//@     && (has(r.owners, cid(r)) ==> avoids(ledger(r), a.Annotations))
+//@     && (forall k string :: has(a.Annotations, "-" + k) ==> !markedK(k))
+//@     && noNilM(a.Mounts) && sep(base(a.Mounts), base(mntD(r))) && sep(base(a.Mounts), base(mntW(r)))
+//@     && noNilKV(a.Env) && sep(base(a.Env), base(envD(r))) && sep(base(a.Env), base(envW(r)))
+//@     && (a.Hooks != nil ==> sepHookInput(r, a.Hooks))
+//@     && (a.Linux != nil ==> noNilLD(a.Linux.Devices) && sep(base(a.Linux.Devices), base(devD(r))) && sep(base(a.Linux.Devices), base(devW(r)))
+//@          && (a.Linux.Resources != nil ==> resPre(r, a.Linux.Resources)))
+//@     && noNilRlimits(a.Rlimits) && sep(base(a.Rlimits), base(reply(r).Rlimits)) && sep(base(a.Rlimits), base(view(r).Rlimits))
+//@     && noNilCDI(a.CDIDevices) && sep(base(a.CDIDevices), base(reply(r).CDIDevices))
+//@ pure resPre(r *result, resources *LinuxResources) = noNilHP(resources.HugepageLimits)
+//@     && sep(base(resources.HugepageLimits), base(rres(r).HugepageLimits)) && sep(base(resources.HugepageLimits), base(vres(r).HugepageLimits))
+//@     && resources.Unified != rres(r).Unified && resources.Unified != vres(r).Unified && resources != rres(r) && resources != vres(r)
+//@     && resources.Unified != view(r).Annotations && resources.Unified != reply(r).Annotations && avoids(ledger(r), resources.Unified)
+//@     && resources.Memory != rres(r).Memory && resources.Memory != vres(r).Memory && resources.Cpu != rres(r).Cpu && resources.Cpu != vres(r).Cpu
+// the collected state itself
+//@ pure adjState(r *result) = wfCreate(r) && annV(r) != nil && annR(r) != nil && annV(r) != annR(r)
+//@     && (has(r.owners, cid(r)) ==> wfOwners(ledger(r)) && avoids(ledger(r), annV(r)) && avoids(ledger(r), annR(r)))
+//@     && noNilM(mntD(r)) && noNilM(mntW(r)) && sep(base(mntD(r)), base(mntW(r)))
+//@     && noNilKV(envD(r)) && sep(base(envD(r)), base(envW(r)))
+//@     && sepHookTargets(r)
+//@     && noNilLD(devD(r)) && noNilLD(devW(r)) && sep(base(devD(r)), base(devW(r)))
+//@     && sep(base(vres(r).HugepageLimits), base(rres(r).HugepageLimits))
+//@     && sep(base(view(r).Rlimits), base(reply(r).Rlimits))
+
+//@ func result.adjust
+//@   props C01 C02 C03 C04
+//@   requires r != nil && adjState(r) && (rpl != nil ==> adjPre(r, rpl))
+//@   modifies @writes
+//@   ensures [nil] rpl == nil ==> result == nil
 
 // ---- resources (generated by gen_resources.py) ----
 //@ pure vres(r *result) = r.request.create.Container.Linux.Resources
@@ -958,6 +1018,7 @@ package adaptation
 //@                  && has(rres(r).Unified, k) && rres(r).Unified[k] == resources.Unified[k] && has(vres(r).Unified, k) && vres(r).Unified[k] == resources.Unified[k]
 //@   keep after resultOwners.claimUnified#1 [uni.keep] forall k string :: (resources == nil || !has(resources.Unified, k)) ==> (has(ledger(r).unified, k) == old(has(ledger(r).unified, k)) && ledger(r).unified[k] == old(ledger(r).unified[k]) && has(rres(r).Unified, k) == old(has(rres(r).Unified, k)) && rres(r).Unified[k] == old(rres(r).Unified[k]) && has(vres(r).Unified, k) == old(has(vres(r).Unified, k)) && vres(r).Unified[k] == old(vres(r).Unified[k]))
 //@   keep [uni.map] mapStable(ledger(r).unified, old(ledger(r).unified))
+//@   ensures [wf]    wfCreate(r)
 //@   ensures [noop]  resources == nil ==> result == nil && ledgerSame(r)
 //@   ensures [c02]   resources != nil && old(resDisjoint(r, resources)) ==> result == nil
 //@   ensures [ledger.same]   wfRO(r.owners) && (old(has(r.owners, cid(r))) ==> has(r.owners, cid(r)) && ledger(r) == old(ledger(r)))
